@@ -170,7 +170,7 @@ def check(src, rep):
     # ---------------------------------------------------------------- R2 status octet
     after = subs[len(want):]
     peek = next((s for s in after if s.kind == "Peek"), None)
-    comp = next((s for s in after if s.kind == "Computed"), None)
+    comp = next((s for s in after if s.kind == "Computed" and s.name == "datetime"), None) or next((s for s in after if s.kind == "Computed"), None)
     conds = [s for s in after if s.kind == "If"]
     rep.require(comp is not None, "DateTime has no Computed datetime member")
     if peek is None:
@@ -213,7 +213,7 @@ def check(src, rep):
         if not badc:
             rep.ok("R2", "status octet", f"for each value class of the peeked octet ({[hex(r) for r, _ in classes]}) the conditional members consume exactly one octet; Peek consumes none")
     # ---------------------------------------------------------------- R4 computed value
-    _computed(rep, le, comp, file)
+    _computed(rep, le, comp, file, dt)
     # every Check of the struct holds for every valid date-time with a specified time of day (it may only reject unspecified times)
     checks = [s for s in subs if s.kind == "Check"]
     badc = 0
@@ -241,7 +241,7 @@ def check(src, rep):
     _normalisers(rep, M, src)
 
 
-def _computed(rep, le, comp, file):
+def _computed(rep, le, comp, file, dt=None):
     lam = comp.a["expr"]
     if not (isinstance(lam, Expr) and isinstance(lam.node, (ast.Lambda, ast.FunctionDef))):
         raise Undecided("datetime member is not Computed(lambda / named function)")
@@ -254,6 +254,12 @@ def _computed(rep, le, comp, file):
                 ctx = Ctx({"year": 2021, "month": 7, "day_of_month": 15, "day_of_week": 4, "hour": 13, "minute": 37, "second": 58, "hundredths_of_second": hund, "deviation": dev,
                            "clock_status": status, "clock_status_byte": 0x80 if dst else 0})
                 try:
+                    # other Computed members declared before the datetime are part of the context it sees (construct evaluates members in order)
+                    for m_ in (dt.a.get("subs", []) if dt is not None else []):
+                        if m_ is comp:
+                            break
+                        if isinstance(m_, N) and m_.kind == "Computed" and m_.name and m_.name not in ctx and isinstance(m_.a.get("expr"), Expr) and isinstance(m_.a["expr"].node, (ast.Lambda, ast.FunctionDef)):
+                            ctx[m_.name] = le.call_lambda(m_.a["expr"].node, [ctx], "cosem")
                     got = le.call_lambda(lam.node, [ctx], "cosem")
                 except NotConstant as e:
                     raise Undecided(f"datetime lambda outside the evaluable subset: {e}")
